@@ -71,4 +71,15 @@ CHECKS = {
             {"part": "hookmgr", "test": "TestStartupOrder", "quick": {"checks": 320, "shards": 16}, "thorough": {"checks": 16000, "shards": 16, "timeout": 3000}},
         ],
     },
+    "C11": {
+        "pkg": "c11",
+        "aux_builds": [{"pkg": "./cmd/vhook", "out": "vhook"}],
+        "technique": "stateful property-based testing (rapid): reference-count model of crontab registrations; tick injection through the real events handler",
+        "level_text": "Random add/remove histories on the real schedule manager checked against a reference-count model by firing the registered cron entries; random hook sets with injected ticks checked for exactly one task per enabled binding. Search, not proof.",
+        "level_note": "Trusted: robfig/cron fires registered entries at the right wall-clock time (not examined); entries are fired through a verif-tagged accessor.",
+        "parts": [
+            {"part": "refcount", "test": "TestRefCount", "quick": {"checks": 5000, "shards": 4}, "thorough": {"checks": 200000, "shards": 16, "timeout": 3000}},
+            {"part": "ticks", "test": "TestTicks", "quick": {"checks": 480, "shards": 12}, "thorough": {"checks": 16000, "shards": 16, "timeout": 3000}},
+        ],
+    },
 }
